@@ -152,12 +152,12 @@ def apply_model(sym, n, f, vals, mut_idx, st):
             return out
         if last == "then_some":
             return None
-    if p == "core::bool::<impl bool>::then_some" or p.endswith("bool>::then_some"):
+    if f["path"].endswith("<impl bool>::then_some"):
         out = []
         for s, r in sym.fork_bool(st, vals[0]):
             out.append((s, (VAL, some(vals[1]) if r else NONE)))
         return out
-    if p.endswith("bool>::then"):
+    if f["path"].endswith("<impl bool>::then"):
         out = []
         for s, r in sym.fork_bool(st, vals[0]):
             if r:
